@@ -9,4 +9,5 @@ import (
 	_ "verif/sim/engines/signsim"
 	_ "verif/sim/engines/vsssim"
 	_ "verif/sim/engines/wire"
+	_ "verif/sim/engines/xofsim"
 )
